@@ -58,8 +58,10 @@ func vkKeysForTable() []uint64 {
 		}
 		return false
 	}
-	// one key whose ideal slot is target+1 (sits inside the cluster) and one at target-1
-	for _, want := range []int{target + 1, target - 1} {
+	// one key whose ideal slot is target+1 (sits inside the cluster), one at target-1, one just
+	// before the wrap-around pair (slot 6: its deletion shifts entries displaced across the array
+	// end) and one homed at slot 0 (lives where the wrapped entries land)
+	for _, want := range []int{target + 1, target - 1, 6, 0} {
 		for k := uint64(1); k < 4096; k++ {
 			if slot(k) == want && !has(k) {
 				keys = append(keys, k)
@@ -280,7 +282,7 @@ func vkReplayMapHist(h []vkOp, keys []uint64) string {
 func vkBFSMap(c *vkit.Ctx, maxDepth int, maxStates int) {
 	keys := vkKeysForTable()
 	ops := vkMapOps(keys)
-	c.Note(fmt.Sprintf("UInt64Map key alphabet %v (3 colliding, 2 wrap-around, zero, neighbour, in-cluster), %d mutating ops", keys, len(ops)))
+	c.Note(fmt.Sprintf("UInt64Map key alphabet %v (3 colliding on slot 3, 2 on the last slot, zero, slots 4, 2, 6, 0), %d mutating ops", keys, len(ops)))
 	init := &vkMapState{m: NewUInt64Map[int](8), model: map[uint64]int{}}
 	seen := map[string]bool{vkPhysDigest(init.m): true}
 	c.DistinctStr("states", "map|"+vkPhysDigest(init.m))
